@@ -15,6 +15,35 @@ import (
 // uvsOrYield: token-level superset of the constructs whose meaning differs between PHP 5 and PHP 7
 // (uniform variable syntax; `yield` as an operator).
 func uvsOrYield(names []string) string {
+	// PHP 5's constant-expression grammar gives unary +/- the precedence of the binary operator, so
+	// `const a = + 1 % 1` is +(1 % 1) in PHP 5.6 and (+1) % 1 in PHP 7: not the same meaning.
+	staticCtx, mulOp := false, false
+	for _, n := range names {
+		switch n {
+		case "T_CONST", "T_STATIC", "T_FUNCTION", "T_FN", "T_VAR", "T_PUBLIC", "T_PROTECTED", "T_PRIVATE", "T_DECLARE":
+			staticCtx = true
+		case "'*'", "'/'", "'%'":
+			mulOp = true
+		}
+	}
+	for i, n := range names {
+		if (n == "'+'" || n == "'-'") && staticCtx && mulOp && i > 0 {
+			switch names[i-1] {
+			case "'='", "'('", "','", "T_DOUBLE_ARROW", "'['", "'?'", "':'":
+				return "unary-sign-in-constant-expression"
+			}
+		}
+		// `$a = & <operand> <binary operator> …`: PHP 5 takes a variable after `=&`, PHP 7.0-7.3 an expression
+		if n == "'&'" && i > 0 && names[i-1] == "'='" {
+			for j := i + 1; j < len(names) && names[j] != "';'"; j++ {
+				switch names[j] {
+				case "T_VARIABLE", "T_STRING", "'['", "']'", "T_OBJECT_OPERATOR", "T_PAAMAYIM_NEKUDOTAYIM", "'('", "')'", "T_LNUMBER", "T_NEW", "T_NS_SEPARATOR", "','", "'$'", "'{'", "'}'", "T_CONSTANT_ENCAPSED_STRING", "T_STATIC", "T_NAMESPACE":
+				default:
+					return "reference-assignment-operand"
+				}
+			}
+		}
+	}
 	for i, n := range names {
 		switch n {
 		case "'$'", "T_DOLLAR_OPEN_CURLY_BRACES":
